@@ -304,6 +304,8 @@ func (m *Dev) abs(ev Event, got []Msg, signals int) *Violation {
 		return m.mono(fmt.Sprintf("%s/%#x/m%d/bend", ak.sub, ak.code, m.Map), ev.Value, val, a.Flip)
 	case "key":
 		return m.keyAxis(ev, a, st, f, canNeg, got, false)
+	case "action":
+		return m.actionAxis(ev, a, st, f, canNeg, got)
 	}
 	m.probe("unmodelled_axis_type_" + a.Type)
 	return nil
@@ -474,6 +476,91 @@ func (m *Dev) physAxis(code uint16) *AxisDesc {
 				}
 			}
 		}
+	}
+	return nil
+}
+
+// actionAxis models an axis of type "action" (hats in the shipped gamepad configurations): reaching half
+// travel in a direction is a press of that direction's action, leaving it a release. Only histories in which
+// no action key is held meanwhile are generated, so the pair-reset rule never applies here.
+func (m *Dev) actionAxis(ev Event, a *AxisDesc, st *axisState, f *big.Rat, canNeg bool, got []Msg) *Violation {
+	v := f
+	if !canNeg {
+		v = new(big.Rat).Sub(new(big.Rat).Mul(rat(2), f), rOne)
+	}
+	newDir := st.dir
+	switch {
+	case v.Cmp(rHalf) >= 0:
+		newDir = 1
+	case v.Cmp(new(big.Rat).Neg(rHalf)) <= 0:
+		newDir = -1
+	case abs(v).Cmp(r49) < 0:
+		newDir = 0
+	}
+	if newDir == st.dir {
+		if len(got) != 0 {
+			return viol("action_axis_emits", fmt.Sprintf("%s stays in direction %d but emitted %s", ev, st.dir, fmtMsgs(got)), "C04")
+		}
+		return nil
+	}
+	old := st.dir
+	st.dir = newDir
+	act := func(dir int) string {
+		if dir > 0 && a.Action != nil {
+			return *a.Action
+		}
+		if dir < 0 && a.ActionNeg != nil {
+			return *a.ActionNeg
+		}
+		return ""
+	}
+	// release of the direction left
+	if o := act(old); o == "cc_learning" {
+		m.Learning = false
+	}
+	n := act(newDir)
+	m.probe("action_axis_" + n)
+	if n == "" {
+		if len(got) != 0 {
+			return viol("action_axis_emits", fmt.Sprintf("%s (no action in direction %d) emitted %s", ev, newDir, fmtMsgs(got)), "C04")
+		}
+		return nil
+	}
+	if o := act(-newDir); o == "cc_learning" && n != "cc_learning" {
+		m.Learning = false
+	}
+	switch n {
+	case "panic":
+		return m.panicStep(got)
+	case "octave_up":
+		m.Oct++
+	case "octave_down":
+		m.Oct--
+	case "semitone_up":
+		m.Semi++
+	case "semitone_down":
+		m.Semi--
+	case "channel_up":
+		if m.Ch < 16 {
+			m.Ch++
+		}
+	case "channel_down":
+		if m.Ch > 1 {
+			m.Ch--
+		}
+	case "mapping_up":
+		if m.Map < len(m.D.Mappings)-1 {
+			m.Map++
+		}
+	case "mapping_down":
+		if m.Map > 0 {
+			m.Map--
+		}
+	case "cc_learning":
+		m.Learning = true
+	}
+	if len(got) != 0 {
+		return viol("action_emits", fmt.Sprintf("action %s triggered by %s emitted %s", n, ev, fmtMsgs(got)), "C02", "C04")
 	}
 	return nil
 }
